@@ -90,6 +90,16 @@ func (t *AppendOnlyTree) AddLeaf(tx dbtypes.Txer, blockNum, blockPosition uint64
 	return nil
 }
 
+// Reorg deletes all the data relevant from firstReorgedBlock (includded) and onwards
+// and invalidates the in-memory cache, which may describe leaves that no longer exist
+func (t *AppendOnlyTree) Reorg(tx dbtypes.Txer, firstReorgedBlock uint64) error {
+	if err := t.Tree.Reorg(tx, firstReorgedBlock); err != nil {
+		return err
+	}
+	t.lastIndex = -2
+	return nil
+}
+
 func (t *AppendOnlyTree) initCache(tx dbtypes.Txer) error {
 	siblings := [types.DefaultHeight]common.Hash{}
 	lastRoot, err := t.getLastRootWithTx(tx)
